@@ -177,7 +177,9 @@ impl ObjectReceiver {
     fn push_to_block(&mut self, pkt: &alc::AlcPkt, now: std::time::SystemTime) -> Result<()> {
         self.push_to_block2(pkt, now)?;
         if pkt.lct.close_object {
-            if self.state == State::Receiving {
+            // An object that still waits for its FDT is not interrupted: the blocks already
+            // decoded are written when the FDT is attached
+            if self.state == State::Receiving && self.fdt_instance_id.is_some() {
                 self.error("No more packet for this object", now, true);
             }
         }
